@@ -144,4 +144,9 @@ Suspects(b) ==
                                                                                               \o (IF b.ord # <<>> THEN "+orderby" ELSE "") \o (IF b.lim >= 0 THEN "+limit" ELSE "")}
              ELSE IF b.oc THEN {"upsert"} ELSE {})
        \cup (IF b.ins # "" /\ b.vals = <<>> /\ ~(b.oc /\ b.whr = <<>>) THEN {"insert-select"} ELSE {})
+       \* a statement that does not qualify its columns orders / groups by a COLUMN whose name another select item carries as its alias:
+       \* the bare name resolves to the alias (the string form orderby("c") means the column c of the first FROM table)
+       \cup (IF ~NeedsNS(b) /\ \E t \in {b.ord[i].t : i \in DOMAIN b.ord} \cup {b.grp[i] : i \in DOMAIN b.grp} :
+                                   t.k = "fld" /\ Alias(t) = "" /\ t.n \in SelAliases(b)
+             THEN {"select-alias-shadows-unqualified-column"} ELSE {})
 =============================================================================
